@@ -30,7 +30,7 @@ PROFILE_WEIGHTS = {
               ("dev_nogauss", 0.3), ("dev_cvrmse", 1), ("legacy_dev", 1)],
     "billing": [("default", 5), ("seasonmap", 2), ("dev_cvrmse", 1.5), ("dev_split", 1)],
     "hourly": [("seed1", 4), ("seed0", 1), ("robust", 1.5), ("solar", 1.5), ("solar_rev", 0.8), ("nonsolar", 1.5), ("adaptive", 1), ("adaptive_lowthr", 0.7), ("lowthr", 1.5),
-               ("cvonly", 0.8), ("pnonly", 0.8), ("noedge", 1), ("supp", 0.8), ("suppcat", 0.6), ("obj", 1), ("shared_obj", 1)],
+               ("cvonly", 0.8), ("pnonly", 0.8), ("noedge", 1), ("supp", 0.8), ("suppcat", 0.6), ("obj", 1), ("shared_obj", 1), ("randsel", 0.8), ("shared_randsel", 0.8)],
     "caltrack": [("default", 1)],
 }
 DEFECTS = {"daily": ["short", "long", "gaps", "tmonth", "neg", "noise", "gaps+tmonth", "short+neg"],
@@ -461,6 +461,10 @@ class Gen:
                 d = self.make_data(base0)
                 m1 = self.fit(m["fam"], d, profile=m["profile"], ignore=True)
                 self.predict(m1, ds[0], ignore=True)
+                if FIT_COST.get((m["fam"], m["profile"]), FIT_COST.get(m["fam"], 1)) <= 2.5:
+                    # the same key once more, by an object whose previous fit (another meter) was interrupted
+                    mx = self._fit_after_failed(m["fam"], m["profile"], self._other_base(m["fam"], m["profile"], base0), base0)
+                    self.predict(mx, ds[0], ignore=True)
             self._refit_flipped(m0, base0, also_fresh=True)
         elif mode == "C04":
             bs = self._data_for(m0, "baseline")
@@ -514,6 +518,40 @@ class Gen:
             if self.models[m0]["fam"] == "billing":
                 self.emit("PREDICT_PAIR", m=m0, recipe=dict(rec2, tgap=0), alter="scaled", agg=r.choice(["monthly", "bimonthly"]))
             self.cost += 4 * PRED_COST.get(self.models[m0]["fam"], 0.3)
+
+    def _fit_after_failed(self, fam, profile, base_fail, base_then, ignore=True):
+        """A fit() that is interrupted somewhere in the middle, then the same object fitted on `base_then`: the result
+        must be the document a fresh object gives for that key (a batch job that catches the exception and goes on)."""
+        r = self.rng
+        d1 = self.make_data(base_fail)
+        ms = self._free_model_slot()
+        self.emit("FIT", m=ms, fam=fam, profile=profile, d=d1, ignore=True,
+                  abort={"q": r.choice([0.02, 0.1, 0.3, 0.6, 0.9]), "exc": r.choice(["MemoryError", "KeyboardInterrupt"])})
+        c = FIT_COST.get((fam, profile), FIT_COST.get(fam, 1.0))
+        self.cost += 2 * c
+        self.models.pop(ms, None)
+        d2 = self.make_data(base_then)
+        self.fit(fam, d2, profile=profile, ignore=ignore, mslot=ms, reuse=True, allow_abort=False)
+        return ms
+
+    def _other_base(self, fam, profile, not_like=None):
+        other = self._new_base(fam)
+        tries = 0
+        while not_like and other.get("mid") == not_like.get("mid") and other.get("src") == not_like.get("src") and tries < 5:
+            other = self._new_base(fam)
+            tries += 1
+        other = {k: v for k, v in other.items() if k != "defect"}
+        if P.needs_ghi(fam, profile) and not other.get("ghi"):
+            other["ghi"] = True
+            if other.get("src") == "sample":
+                other.pop("src")
+                other["mid"] += 100
+        if P.needs_extra(fam, profile) and not other.get("extra"):
+            other["extra"] = True
+            if other.get("src") == "sample":
+                other.pop("src")
+                other["mid"] += 100
+        return other
 
     def _refused_refits(self, m0, base0, d_foreign):
         """The fitted object is handed to fit() again and the call is refused by a guard: foreign data type,
@@ -680,7 +718,8 @@ class Gen:
         if forced:
             self.prelude(m0, base0)
         weights = {
-            "make_reporting": 3, "make_baseline": 1.2, "fit": 1.6, "fit_shared": 0.5, "refit_key": 0.4, "refit_other": 0.5, "portfolio": 0.0, "predict": 7,
+            "make_reporting": 3, "make_baseline": 1.2, "fit": 1.6, "fit_shared": 0.5, "refit_key": 0.4, "refit_other": 0.5,
+            "refit_after_failed": 0.0, "portfolio": 0.0, "predict": 7,
             "predict_odd": 0.6, "pair": 1.0, "store": 1.6, "load": 1.6, "store_load_predict": 0.8, "crash": 0.5,
             "scribble_data": 0.5, "scribble_pred": 0.5, "abort_sweep": 0.15, "serial_sweep": 0.12, "grid": 0.3, "inspect": 0.4, "new_model": 0.25, "fault": 1.6,
         }
@@ -697,6 +736,7 @@ class Gen:
             weights[k] *= v
         if mode == "C03":
             weights["portfolio"] = 2.0
+            weights["refit_after_failed"] = 1.5 if sw["faults"]["abort"] else 0.0
         if not sw["faults"]["crash"]:
             weights["crash"] = 0
         if not any(sw["faults"][k] for k in ("thread", "blas", "clock", "rng")):
@@ -757,6 +797,17 @@ class Gen:
                     self.fit(m["fam"], d, profile=m["profile"], ignore=m["ignore"], mslot=ms, reuse=True)
                 else:
                     self.fit(m["fam"], d, profile=m["profile"], ignore=m["ignore"])
+            elif op == "refit_after_failed":
+                if not fitted or self.n_fit >= 6:
+                    continue
+                ms = r.choice(fitted)
+                m = self.models[ms]
+                if m["fam"] == "caltrack" or m.get("restored"):
+                    continue
+                if FIT_COST.get((m["fam"], m["profile"]), FIT_COST.get(m["fam"], 1)) > 2.5:
+                    continue
+                self._fit_after_failed(m["fam"], m["profile"], self._other_base(m["fam"], m["profile"], m["base"]),
+                                       m["base"], ignore=m["ignore"])
             elif op == "refit_other":
                 # the same model object fitted again on ANOTHER meter of its family
                 if not fitted or self.n_fit >= 6:
